@@ -51,6 +51,19 @@ pub fn outcomes_equal(a: &Outcome, b: &Outcome) -> Option<String> {
     if a.receipts != b.receipts {
         return Some(format!("receipts differ ({} vs {})", a.receipts.len(), b.receipts.len()));
     }
+    // `Receipt`'s equality ignores the panic receipt's contract id (and the payload
+    // copies): compare those through the accessors
+    if a.receipts.len() <= 4096 {
+        let extra = |o: &Outcome| -> Vec<(Option<fuel_types::ContractId>, Option<Vec<u8>>)> {
+            o.receipts
+                .iter()
+                .map(|r| (if matches!(r, fuel_tx::Receipt::Panic { .. }) { r.contract_id().copied() } else { None }, r.data().map(|d| d.to_vec())))
+                .collect()
+        };
+        if extra(a) != extra(b) {
+            return Some("receipts differ in fields their equality ignores (panic contract id / data payload)".into());
+        }
+    }
     if a.tx != b.tx {
         return Some("output transaction differs".into());
     }
